@@ -11,6 +11,9 @@ open Moc
 def pieceVal (v d0 : Nat) (c : Cell) : Nat := v / 4 ^ (c.1 - d0)
 def massOf (v d0 : Nat) (cs : List Cell) : Nat := (cs.map (pieceVal v d0)).sum
 
+theorem piece_pos {fuel v : Nat} (h : 4 ^ fuel ∣ v) (hv : 0 < v) : 0 < v / 4 ^ fuel :=
+  Nat.div_pos (Nat.le_of_dvd hv h) (Nat.pow_pos (by decide))
+
 theorem massOf_append (v d0 : Nat) (a b : List Cell) : massOf v d0 (a ++ b) = massOf v d0 a + massOf v d0 b := by
   simp [massOf, List.map_append, List.sum_append]
 
@@ -69,13 +72,20 @@ theorem descent_mass : ∀ (fuel depth ipix v : Nat) (strict : Bool) (t : Nat) (
     4 ^ fuel ∣ v → t < v → descent fuel depth ipix v strict t = some cs →
     (∀ c ∈ cs, depth ≤ c.1) ∧
     (strict = true → massOf v depth cs ≤ t ∧ t < massOf v depth cs + v / 4 ^ fuel) ∧
-    (strict = false → t ≤ massOf v depth cs ∧ massOf v depth cs ≤ t + v / 4 ^ fuel) := by
+    (strict = false → t ≤ massOf v depth cs ∧ massOf v depth cs < t + v / 4 ^ fuel) := by
   intro fuel
   induction fuel with
   | zero =>
-    intro depth ipix v strict t cs _ ht h
+    intro depth ipix v strict t cs hdvd ht h
     simp only [descent] at h
     rw [if_pos (by omega)] at h
+    by_cases ht0 : t = 0
+    · rw [if_pos ht0] at h
+      injection h with h; subst h; subst ht0
+      have hp := piece_pos hdvd (by omega : 0 < v)
+      exact ⟨(by intro c hc; cases hc), fun _ => ⟨(by simp [massOf]), (by simpa [massOf] using hp)⟩,
+        fun _ => ⟨(by simp [massOf]), (by simpa [massOf] using hp)⟩⟩
+    rw [if_neg ht0] at h
     have hne : ¬ (v = t) := by omega
     cases strict with
     | true =>
@@ -89,6 +99,13 @@ theorem descent_mass : ∀ (fuel depth ipix v : Nat) (strict : Bool) (t : Nat) (
     obtain ⟨hpos, hdvd', hk4, hlt, hsplit, hv4⟩ := level_facts f v t hdvd ht
     simp only [descent] at h
     rw [if_pos (by omega)] at h
+    by_cases ht0 : t = 0
+    · rw [if_pos ht0] at h
+      injection h with h; subst h; subst ht0
+      have hp := piece_pos hdvd (by omega : 0 < v)
+      exact ⟨(by intro c hc; cases hc), fun _ => ⟨(by simp [massOf]), (by simpa [massOf] using hp)⟩,
+        fun _ => ⟨(by simp [massOf]), (by simpa [massOf] using hp)⟩⟩
+    rw [if_neg ht0] at h
     generalize hk : takeSub (v / 4) 5 0 t = r at *
     simp only [hk4, if_true] at h
     cases hd : descent f (depth + 1) (ipix * 4 + r.1) (v / 4) strict r.2 with
@@ -124,13 +141,20 @@ theorem descentR_mass : ∀ (fuel depth ipix v : Nat) (strict : Bool) (t : Nat) 
     4 ^ fuel ∣ v → t < v → descentR fuel depth ipix v strict t = some cs →
     (∀ c ∈ cs, depth ≤ c.1) ∧
     (strict = true → massOf v depth cs ≤ t ∧ t < massOf v depth cs + v / 4 ^ fuel) ∧
-    (strict = false → t ≤ massOf v depth cs ∧ massOf v depth cs ≤ t + v / 4 ^ fuel) := by
+    (strict = false → t ≤ massOf v depth cs ∧ massOf v depth cs < t + v / 4 ^ fuel) := by
   intro fuel
   induction fuel with
   | zero =>
-    intro depth ipix v strict t cs _ ht h
+    intro depth ipix v strict t cs hdvd ht h
     simp only [descentR] at h
     rw [if_pos (by omega)] at h
+    by_cases ht0 : t = 0
+    · rw [if_pos ht0] at h
+      injection h with h; subst h; subst ht0
+      have hp := piece_pos hdvd (by omega : 0 < v)
+      exact ⟨(by intro c hc; cases hc), fun _ => ⟨(by simp [massOf]), (by simpa [massOf] using hp)⟩,
+        fun _ => ⟨(by simp [massOf]), (by simpa [massOf] using hp)⟩⟩
+    rw [if_neg ht0] at h
     have hne : ¬ (v = t) := by omega
     cases strict with
     | true =>
@@ -144,6 +168,13 @@ theorem descentR_mass : ∀ (fuel depth ipix v : Nat) (strict : Bool) (t : Nat) 
     obtain ⟨hpos, hdvd', hk4, hlt, hsplit, hv4⟩ := level_facts f v t hdvd ht
     simp only [descentR] at h
     rw [if_pos (by omega)] at h
+    by_cases ht0 : t = 0
+    · rw [if_pos ht0] at h
+      injection h with h; subst h; subst ht0
+      have hp := piece_pos hdvd (by omega : 0 < v)
+      exact ⟨(by intro c hc; cases hc), fun _ => ⟨(by simp [massOf]), (by simpa [massOf] using hp)⟩,
+        fun _ => ⟨(by simp [massOf]), (by simpa [massOf] using hp)⟩⟩
+    rw [if_neg ht0] at h
     generalize hk : takeSub (v / 4) 5 0 t = r at *
     simp only [hk4, if_true] at h
     cases hd : descentR f (depth + 1) (ipix * 4 + (3 - r.1)) (v / 4) strict r.2 with
@@ -179,14 +210,23 @@ theorem descentR_mass : ∀ (fuel depth ipix v : Nat) (strict : Bool) (t : Nat) 
 theorem descentRev_mass : ∀ (fuel depth ipix v : Nat) (strict : Bool) (t : Nat) (cs : List Cell),
     4 ^ fuel ∣ v → t < v → descentRev fuel depth ipix v strict t = some cs →
     (∀ c ∈ cs, depth ≤ c.1) ∧
-    (strict = true → massOf v depth cs + t ≤ v ∧ v ≤ massOf v depth cs + t + v / 4 ^ fuel) ∧
-    (strict = false → v ≤ massOf v depth cs + t ∧ massOf v depth cs + t ≤ v + v / 4 ^ fuel) := by
+    (strict = true → massOf v depth cs + t ≤ v ∧ v < massOf v depth cs + t + v / 4 ^ fuel) ∧
+    (strict = false → v ≤ massOf v depth cs + t ∧ massOf v depth cs + t < v + v / 4 ^ fuel) := by
   intro fuel
   induction fuel with
   | zero =>
-    intro depth ipix v strict t cs _ ht h
+    intro depth ipix v strict t cs hdvd ht h
     simp only [descentRev] at h
     rw [if_pos (by omega)] at h
+    by_cases ht0 : t = 0
+    · rw [if_pos ht0] at h
+      injection h with h; subst h; subst ht0
+      have hm : massOf v depth [(depth, ipix)] = v := by simp [massOf, pieceVal]
+      have hp := piece_pos hdvd (by omega : 0 < v)
+      exact ⟨(by intro c hc; simp at hc; subst hc; exact Nat.le_refl _),
+        fun _ => ⟨(by rw [hm]; exact Nat.le_refl _), (by rw [hm]; omega)⟩,
+        fun _ => ⟨(by rw [hm]; exact Nat.le_refl _), (by rw [hm]; omega)⟩⟩
+    rw [if_neg ht0] at h
     have hne : v ≠ t := by omega
     cases strict with
     | true =>
@@ -200,6 +240,15 @@ theorem descentRev_mass : ∀ (fuel depth ipix v : Nat) (strict : Bool) (t : Nat
     obtain ⟨hpos, hdvd', hk4, hlt, hsplit, hv4⟩ := level_facts f v t hdvd ht
     simp only [descentRev] at h
     rw [if_pos (by omega)] at h
+    by_cases ht0 : t = 0
+    · rw [if_pos ht0] at h
+      injection h with h; subst h; subst ht0
+      have hm : massOf v depth [(depth, ipix)] = v := by simp [massOf, pieceVal]
+      have hp := piece_pos hdvd (by omega : 0 < v)
+      exact ⟨(by intro c hc; simp at hc; subst hc; exact Nat.le_refl _),
+        fun _ => ⟨(by rw [hm]; exact Nat.le_refl _), (by rw [hm]; omega)⟩,
+        fun _ => ⟨(by rw [hm]; exact Nat.le_refl _), (by rw [hm]; omega)⟩⟩
+    rw [if_neg ht0] at h
     generalize hk : takeSub (v / 4) 5 0 t = r at *
     simp only [hk4, if_true] at h
     cases hd : descentRev f (depth + 1) (ipix * 4 + r.1) (v / 4) strict r.2 with
@@ -229,32 +278,59 @@ theorem descentRev_mass : ∀ (fuel depth ipix v : Nat) (strict : Bool) (t : Nat
         rw [hm, ← div4_pow]
         omega
 
-/-- **Lower-boundary descent, reverse order** (`reverse_recursive_descent_rev`: first level reversed,
-    then `recursive_descent_rev`): same enclosed value. -/
-theorem descentRRev_mass (fuel depth ipix v : Nat) (strict : Bool) (t : Nat) (cs : List Cell)
-    (hdvd : 4 ^ fuel ∣ v) (ht : t < v) (h : descentRRev fuel depth ipix v strict t = some cs) :
+/-- **Lower-boundary descent, reverse order** (`reverse_recursive_descent_rev`, repaired: reversed at every level):
+    same enclosed value. -/
+theorem descentRRev_mass : ∀ (fuel depth ipix v : Nat) (strict : Bool) (t : Nat) (cs : List Cell),
+    4 ^ fuel ∣ v → t < v → descentRRev fuel depth ipix v strict t = some cs →
     (∀ c ∈ cs, depth ≤ c.1) ∧
-    (strict = true → massOf v depth cs + t ≤ v ∧ v ≤ massOf v depth cs + t + v / 4 ^ fuel) ∧
-    (strict = false → v ≤ massOf v depth cs + t ∧ massOf v depth cs + t ≤ v + v / 4 ^ fuel) := by
-  cases fuel with
+    (strict = true → massOf v depth cs + t ≤ v ∧ v < massOf v depth cs + t + v / 4 ^ fuel) ∧
+    (strict = false → v ≤ massOf v depth cs + t ∧ massOf v depth cs + t < v + v / 4 ^ fuel) := by
+  intro fuel
+  induction fuel with
   | zero =>
-    -- same base case as `descentRev`
-    have : descentRev 0 depth ipix v strict t = some cs := by
-      simpa [descentRRev, descentRev] using h
-    exact descentRev_mass 0 depth ipix v strict t cs hdvd ht this
-  | succ f =>
+    intro depth ipix v strict t cs hdvd ht h
+    simp only [descentRRev] at h
+    rw [if_pos (by omega)] at h
+    by_cases ht0 : t = 0
+    · rw [if_pos ht0] at h
+      injection h with h; subst h; subst ht0
+      have hm : massOf v depth [(depth, ipix)] = v := by simp [massOf, pieceVal]
+      have hp := piece_pos hdvd (by omega : 0 < v)
+      exact ⟨(by intro c hc; simp at hc; subst hc; exact Nat.le_refl _),
+        fun _ => ⟨(by rw [hm]; exact Nat.le_refl _), (by rw [hm]; omega)⟩,
+        fun _ => ⟨(by rw [hm]; exact Nat.le_refl _), (by rw [hm]; omega)⟩⟩
+    rw [if_neg ht0] at h
+    have hne : v ≠ t := by omega
+    cases strict with
+    | true =>
+      simp [hne] at h; subst h
+      simp [massOf]; omega
+    | false =>
+      simp [hne] at h; subst h
+      simp [massOf, pieceVal]; omega
+  | succ f ih =>
+    intro depth ipix v strict t cs hdvd ht h
     obtain ⟨hpos, hdvd', hk4, hlt, hsplit, hv4⟩ := level_facts f v t hdvd ht
     simp only [descentRRev] at h
     rw [if_pos (by omega)] at h
+    by_cases ht0 : t = 0
+    · rw [if_pos ht0] at h
+      injection h with h; subst h; subst ht0
+      have hm : massOf v depth [(depth, ipix)] = v := by simp [massOf, pieceVal]
+      have hp := piece_pos hdvd (by omega : 0 < v)
+      exact ⟨(by intro c hc; simp at hc; subst hc; exact Nat.le_refl _),
+        fun _ => ⟨(by rw [hm]; exact Nat.le_refl _), (by rw [hm]; omega)⟩,
+        fun _ => ⟨(by rw [hm]; exact Nat.le_refl _), (by rw [hm]; omega)⟩⟩
+    rw [if_neg ht0] at h
     generalize hk : takeSub (v / 4) 5 0 t = r at *
     simp only [hk4, if_true] at h
-    cases hd : descentRev f (depth + 1) (ipix * 4 + (3 - r.1)) (v / 4) strict r.2 with
+    cases hd : descentRRev f (depth + 1) (ipix * 4 + (3 - r.1)) (v / 4) strict r.2 with
     | none => rw [hd] at h; simp at h
     | some rest =>
       rw [hd] at h
       simp only [Option.map_some, Option.some.injEq] at h
       subst h
-      obtain ⟨i1, i2, i3⟩ := descentRev_mass f (depth + 1) (ipix * 4 + (3 - r.1)) (v / 4) strict r.2 rest hdvd' hlt hd
+      obtain ⟨i1, i2, i3⟩ := ih (depth + 1) (ipix * 4 + (3 - r.1)) (v / 4) strict r.2 rest hdvd' hlt hd
       have hshift := massOf_shift v depth rest i1
       have hm : massOf v depth (rest ++ ((List.range (3 - r.1)).map fun i => (depth + 1, ipix * 4 + (3 - r.1 - 1 - i))))
           = massOf (v / 4) (depth + 1) rest + (3 - r.1) * (v / 4) := by
@@ -426,9 +502,9 @@ theorem lowStage_spec (md : Nat) (sorted : List VCell) (from_ to : Nat) (strict 
           simp only [Option.map_some, Option.some.injEq, Prod.mk.injEq] at h
           obtain ⟨rfl, _, rfl, rfl, rfl⟩ := h
           have hm : (strict = true → massOf c.val c.depth cs + (from_ - acc) ≤ c.val ∧
-                c.val ≤ massOf c.val c.depth cs + (from_ - acc) + c.val / 4 ^ (md - c.depth)) ∧
+                c.val < massOf c.val c.depth cs + (from_ - acc) + c.val / 4 ^ (md - c.depth)) ∧
               (strict = false → c.val ≤ massOf c.val c.depth cs + (from_ - acc) ∧
-                massOf c.val c.depth cs + (from_ - acc) ≤ c.val + c.val / 4 ^ (md - c.depth)) := by
+                massOf c.val c.depth cs + (from_ - acc) < c.val + c.val / 4 ^ (md - c.depth)) := by
             by_cases hrev : rev = true
             · simp only [hrev, ↓reduceIte] at hd
               exact (descentRRev_mass _ _ _ _ _ _ _ hdvd ht hd).2
@@ -490,7 +566,7 @@ theorem highStage_spec (md to : Nat) (strict noSplit rev : Bool)
           have hm : (strict = true → massOf c2.val c2.depth hs' ≤ to - acc2 ∧
                 to - acc2 < massOf c2.val c2.depth hs' + c2.val / 4 ^ (md - c2.depth)) ∧
               (strict = false → to - acc2 ≤ massOf c2.val c2.depth hs' ∧
-                massOf c2.val c2.depth hs' ≤ to - acc2 + c2.val / 4 ^ (md - c2.depth)) := by
+                massOf c2.val c2.depth hs' < to - acc2 + c2.val / 4 ^ (md - c2.depth)) := by
             by_cases hrev : rev = true
             · simp only [hrev, ↓reduceIte] at hd
               exact (descentR_mass _ _ _ _ _ _ _ hdvd ht hd).2
